@@ -3447,7 +3447,13 @@ func (n *EncapNLRI) decodeFromBytes(data []byte, options ...*MarshallingOption) 
 	default:
 		return NewMessageError(BGP_ERROR_UPDATE_MESSAGE_ERROR, BGP_ERROR_SUB_INVALID_NETWORK_FIELD, nil, "nlri length isn't valid")
 	}
-	addr, _ := netip.AddrFromSlice(data[1:])
+	// data runs to the end of the attribute: take only the octets the
+	// length field announces, another NLRI may follow.
+	addrLen := int(data[0]) / 8
+	if len(data) < 1+addrLen {
+		return NewMessageError(BGP_ERROR_UPDATE_MESSAGE_ERROR, BGP_ERROR_SUB_INVALID_NETWORK_FIELD, nil, "not all encap nlri bytes available")
+	}
+	addr, _ := netip.AddrFromSlice(data[1 : 1+addrLen])
 	n.Endpoint = addr
 	return nil
 }
